@@ -13,6 +13,7 @@ import math
 import numpy as np
 
 from ..core import import_library
+from ..env import ENVIRONMENTS, excusable, hostile
 from ..probe import Probe, Reach
 
 WORKERS = {"quick": 1, "thorough": 8}
@@ -349,6 +350,11 @@ class Runner:
                 except (ValueError, TypeError):
                     # the library refused the values of this context: it was never entered, the settings are as before
                     self.ctx.hit("event:context refused by the library")
+                except Warning as ex:
+                    # (warnings turned into errors) whatever a context has to say when it is left, it says after it has put the
+                    # settings back: the probes below find everything restored
+                    self.ctx.hit(f"event:a context raised {type(ex).__name__} when left")
+                    model.update(saved)
                 self.probe_helpers(model)
             elif st[0] == "assign":
                 setattr(self.s, st[1], st[2])
@@ -410,6 +416,14 @@ def run(ctx):
             for fault in (False, True):
                 prog = [("ctx", {named: values(fl, rnd, named, True)}, [("assign", assigned, values(fl, rnd, assigned, True)), ("probe",)] + ([("raise",)] if fault else []), True), ("probe",)]
                 runner.run_program(prog)
+                # the same in a process whose state is not the default one (warnings are errors, the library logs at DEBUG, ...),
+                # with more settings named and nested once
+                envname = ENVIRONMENTS[(i + int(fault)) % len(ENVIRONMENTS)]
+                more = {k: values(fl, rnd, k, True) for k in rnd.sample([k for k in KEYS if k != named], 2)}
+                inner = ("ctx", {named: values(fl, rnd, named, True), **more}, [("assign", assigned, values(fl, rnd, assigned, True)), ("probe",)] + ([("raise",)] if fault else []), True)
+                with hostile(fl, envname, ctx):
+                    runner.run_program([inner, ("probe",)])
+                    runner.run_program([("ctx", {rnd.choice(KEYS): values(fl, rnd, "decimals", True)} if False else {"decimals": rnd.randrange(0, 10)}, [inner, ("probe",)], False), ("probe",)])
             ctx.hit("assign:" + ("named" if named == assigned else "unnamed"))
             if i % 13 == 0:
                 ctx.sample("assign", describe(prog))
@@ -452,6 +466,50 @@ def run(ctx):
             finally:
                 for attr, v in pristine.items():
                     vars(fl.settings)[attr] = v
+        # 3c. generators of the library consumed step by step (the shipped examples): between two steps the caller's settings are
+        # the caller's - inside a context of its own, after that context was left with the generator suspended, and after the
+        # generator was exhausted or dropped
+        import fuzzylite.examples  # noqa: F401
+
+        for i, rnd in ctx.cases("library generators", ctx.scale(4, 40)):
+            fl.settings.factory_manager  # (the default manager is made on first use: have it made before the settings are noted)
+            pristine = dict(vars(fl.settings))
+            model = {k: pristine[ATTR[k]] for k in KEYS}
+            what = ["engine", "module"][i % 2]
+            try:
+                gen = fl.Op.glob_examples(what)
+                for k, _ in enumerate(gen):
+                    runner.probe_helpers(model)
+                    if k >= rnd.randint(1, 3):
+                        break
+                runner.probe_helpers(model)
+                mine = {"factory_manager": values(fl, rnd, "factory_manager", True), "decimals": rnd.randrange(0, 10), "alias": rnd.choice(["", "*", "f2"])}
+                with fl.settings.context(**mine):
+                    model.update(mine)
+                    it = fl.Op.glob_examples(what)
+                    next(it)
+                    runner.probe_helpers(model)
+                    next(it)
+                    runner.probe_helpers(model)
+                model.update({k: pristine[ATTR[k]] for k in mine})
+                runner.probe_helpers(model)
+                if i % 3 == 0:
+                    del it
+                    import gc
+
+                    gc.collect()
+                elif i % 3 == 1:
+                    it.close()
+                else:
+                    for _ in zip(range(3), it):
+                        runner.probe_helpers(model)
+                runner.probe_helpers(model)
+                gen.close()
+                runner.probe_helpers(model)
+                ctx.hit("event:library generator consumed step by step across contexts")
+            finally:
+                for attr, v in pristine.items():
+                    vars(fl.settings)[attr] = v
         # 4. random programs
         for i, rnd in ctx.cases("random", nrandom):
             prog = gen_program(fl, rnd, 0, max_depth)
@@ -463,6 +521,7 @@ def run(ctx):
     ctx.exhaustive = True
     ctx.extra["exhaustive_space"] = "nesting depth 2 over all 28x28 single/double key subsets x 4 exception placements; 7x7 (named, assigned) pairs x {normal, exception}"
     ctx.require("hook:Settings.context", "event:enter", "event:exit:normal", "event:exit:exception", "exception_crossed_a_context", "assign:named", "assign:unnamed", "depth:2", "depth:3", "base_exception_crossed_a_context")
+    ctx.require("event:library generator consumed step by step across contexts", *[f"environment:{e}" for e in ENVIRONMENTS])
     ctx.require("entered:prepared", "entered:exitstack", "entered:decorator", "event:context used as a decorator", "event:setting assigned between creation and entry of a context", "probe:Op.str:2-D array", "entered:decorator-recursive", "event:contexts left in the order they were entered", "probe:Op.is_close on a large batch")
 
 
